@@ -81,9 +81,9 @@ def cargo_build_cli():
 
 
 def setup():
+    ok3, o3 = cargo_build_hx()
     ok1, o1 = run_translator()
     ok2, o2 = lake_build(["StyluaModel", "modeld"])
-    ok3, o3 = cargo_build_hx()
     ok4, o4 = cargo_build_cli()
     for ok, o, n in ((ok1, o1, "translator"), (ok2, o2, "lake"), (ok3, o3, "harness"), (ok4, o4, "cli")):
         print(("ok   " if ok else "FAIL ") + n)
@@ -229,7 +229,34 @@ def run_modeld(requests):
     return ans
 
 
+def file_sha1(path):
+    h = hashlib.sha1()
+    with open(path, "rb") as f:
+        for chunk in iter(lambda: f.read(1 << 20), b""):
+            h.update(chunk)
+    return h.hexdigest()
+
+
 def run_hx(sub, tier, seed, extra_env=None, timeout=3000):
+    # the closed-set pipeline is shared by several properties: cache its output per harness
+    # binary (the binary embeds /repo's working tree, so any source change invalidates it)
+    if sub == ["pipe"] and not extra_env:
+        key = os.path.join(CACHE, "pipe-%s.out" % file_sha1(HX)[:16])
+        with Lock("pipe"):
+            if os.path.exists(key):
+                return 0, open(key, encoding="utf-8").read(), ""
+            rc, out, err = run_hx_raw(sub, tier, seed, extra_env, timeout)
+            if rc == 0:
+                for old in os.listdir(CACHE):
+                    if old.startswith("pipe-") and old.endswith(".out"):
+                        os.unlink(os.path.join(CACHE, old))
+                with open(key, "w", encoding="utf-8") as f:
+                    f.write(out)
+            return rc, out, err
+    return run_hx_raw(sub, tier, seed, extra_env, timeout)
+
+
+def run_hx_raw(sub, tier, seed, extra_env=None, timeout=3000):
     e = env_offline()
     e["VERIF_TIER"] = tier
     e["VERIF_SEED"] = str(seed)
@@ -264,10 +291,12 @@ def split_lines(text):
 
 
 def load_known():
-    p = os.path.join(ROOT, "known_findings.json")
-    if not os.path.exists(p):
-        return []
-    return json.load(open(p)).get("findings", [])
+    out = []
+    for name in ("known_findings.json", "known_findings_corpus.json"):
+        p = os.path.join(ROOT, name)
+        if os.path.exists(p):
+            out += json.load(open(p)).get("findings", [])
+    return out
 
 
 class Run:
@@ -326,13 +355,13 @@ class Run:
     def execute(self):
         pid, cfg = self.pid, self.cfg
         lines_out = []
-        okT, outT = run_translator()
+        build_fail = None
+        okH, outH = cargo_build_hx()
+        okT, outT = run_translator() if okH else (True, "")
         r1 = ring1(pid, cfg, self.tier)
         if not okT:
             r1["ok"] = False
             r1["failing"].append({"obligation": "translator (Generated/*.lean from /repo)", "log": outT[-3000:]})
-        build_fail = None
-        okH, outH = cargo_build_hx()
         if not okH:
             build_fail = {"obligation": "harness builds against /repo working tree", "log": outH[-3000:]}
         if cfg.get("needs_cli") and not build_fail:
